@@ -48,12 +48,15 @@ class C05Envelope(Monitor):
             ctx.violate("crop-outputs-finite", t, observed={k: repr(float(g[GX[k]])) for k in bad}, expected="finite", sig_cols=bad)
         if not post.gs:
             ctx.hit("off_season_row")
-            vals = {k: float(g[GX[k]]) for k in ("canopy_cover", "biomass", "DryYield", "FreshYield", "dap")}
+            if getattr(self, "died", False):
+                ctx.hit("fallow_after_death_row")
+            vals = {k: float(g[GX[k]]) for k in ("canopy_cover", "canopy_cover_ns", "biomass", "biomass_ns", "DryYield", "FreshYield", "dap")}
             if any(v != 0 for v in vals.values()):
                 ctx.violate("off-season-zero", t, observed=vals, expected="all 0")
             self.prev = None
             return
         season = pre.season if pre.season >= 0 else post.season
+        self.died = bool(getattr(ctx.model._init_cond, "crop_dead", False))
         crop = season_crop(ctx, post.season)
         cfg = self.cfg
         crop = _Envelope(crop, cfg)
